@@ -60,6 +60,35 @@ def eval_batch(formulas, inputs=None, sheet='Sheet1', post_set=None,
     return [outcome_of(lambda a=a: ev.evaluate(a)) for a in addrs]
 
 
+def eval_series(formulas, inputs_list, sheet='Sheet1'):
+    """ONE compiled model and ONE Evaluator; the probe formulas are evaluated
+    under inputs_list[0], then the inputs are re-assigned through
+    Evaluator.set_cell_value to inputs_list[1], ... and the same probes are
+    evaluated again (what a user doing what-if analysis does).
+    -> list (per assignment) of lists of outcomes, or None when the batch does
+    not compile (the caller has the one-model-per-assignment path for that)."""
+    from xlcalculator import Evaluator
+    cells = dict(inputs_list[0])
+    addrs = []
+    for i, f in enumerate(formulas):
+        a = f'{sheet}!{PROBE_COL}{i + 1}'
+        cells[a] = f if f.startswith('=') else '=' + f
+        addrs.append(a)
+    try:
+        ev = Evaluator(compile_dict(cells, default_sheet=sheet))
+    except MonitorAbort:
+        raise
+    except BaseException:  # noqa
+        return None
+    out = []
+    for n, inputs in enumerate(inputs_list):
+        if n:
+            for a, v in inputs.items():
+                ev.set_cell_value(a if '!' in a else f'{sheet}!{a}', v)
+        out.append([outcome_of(lambda a=a: ev.evaluate(a)) for a in addrs])
+    return out
+
+
 def eval_one(formula, inputs=None, sheet='Sheet1', post_set=None,
              evaluator_hook=None):
     from xlcalculator import Evaluator
